@@ -78,6 +78,10 @@ def wholerun_record(ctx, res, rec):
         if int(rec["row"]["Days Emitting"]) != int(rec["base"]["Days Emitting"]):
             ctx.violate("C03:nonrepairable-affected", "non-repairable emission: days emitting differ from baseline", inp)
     check(ctx, "wholerun", rec["repairable"], rec["start"], rec["nrd"], r, b, inp)
+    # the duration bound is judged for every program (the no-LDAR one included) of every simulation number,
+    # against the duration configured for THIS run
+    ctx.count("wholerun_bounded-duration_evaluated:%s:sim%s" % ("baseline" if rec["prog"] == res.cfg["baseline"] else "program",
+                                                               rec["sim"] if rec["sim"] < 3 else "3+"))
     if not EC.tagging_methods(res.cfg, rec["prog"]):
         ctx.count("wholerun_records_of_programs_that_cannot_tag:%s" % ("no-methods" if not next(p_["methods"] for p_ in res.cfg["programs"] if p_["name"] == rec["prog"]) else "coverage-0"))
         if (r["status"], r["activeDays"], r["emitDays"]) != (b["status"], b["activeDays"], b["emitDays"]):
